@@ -263,7 +263,8 @@ def thRule (s : Th.State) : Th.Label → String
   | .finish _ => "th.finish"
   | .setP _ _ => "th.setP"
   | .getP f _ => if (s.slot0 f).isSome then "th.getP.own" else "th.getP.default"
-  | .copyQP _ => "th.copyQP"
+  | .setQ _ _ => "th.setQ"
+  | .copyQP f => if Th.read1 s f = Th.read0 s f then "th.copyQP.same" else "th.copyQP"
   | .getQ f _ => if (s.slot1 f).isSome then "th.getQ.own" else "th.getQ.default"
   | .getL _ _ => "th.getL"
   | .sleepStart _ _ _ => "th.sleepStart"
@@ -285,6 +286,7 @@ def thAct (_s : Th.State) (x : Scratch) (ts : List String) : Act Th.Label :=
         | "done" :: _ => .step (.finish f) x
         | "call" :: "tls_set" :: v :: _ => .step (.setP f (v.toNat?.getD 0)) x
         | "ret" :: "tls_get" :: v :: _ => .step (.getP f (parseSlot v)) x
+        | "call" :: "tls_setq" :: v :: _ => .step (.setQ f (v.toNat?.getD 0)) x
         | "call" :: "tls_copy" :: _ => .step (.copyQP f) x
         | "ret" :: "tls_getq" :: v :: _ => .step (.getQ f (parseSlot v)) x
         | "ret" :: "tls_getl" :: v :: _ => .step (.getL f (parseSlot v)) x
